@@ -148,22 +148,41 @@ def load(fmt, text):
     return tomllib.loads(text)
 
 
-def run_fileformat(fmt, ctx_values, src_text, inplace, encoding):
-    """Write src_text to in.<fmt>, run the fileformat step, return (outcome, output text)."""
+def enc_in_out(enc):
+    """(IN encoding, OUT encoding) the options stand for — by the documentation of the steps: encodingIn /
+    encodingOut win over encoding, which wins over the default (utf-8)."""
+    enc = enc or {}
+    return (enc.get('encodingIn') or enc.get('encoding') or 'utf-8',
+            enc.get('encodingOut') or enc.get('encoding') or 'utf-8')
+
+
+def run_fileformat(fmt, ctx_values, src_text, inplace, encoding, enc=None, route=None):
+    """Write src_text to in.<fmt> (in the IN encoding), run the fileformat step, return (outcome, output text).
+    `enc`: {encoding?, encodingIn?, encodingOut?}; `route`: inplace (no out) | out (another file) | same (out
+    spells the in file) | empty (out: ''). The output is read back with the OUT encoding; text None + outcome
+    {'ok': True, 'undecodable': …} when that fails."""
     from pypyr.context import Context
     modname, key = FORMAT[fmt]
     mod = importlib.import_module(modname)
-    e_in = (encoding or 'utf-8') if fmt != 'toml' else 'utf-8'
+    if enc is None:
+        enc = {'encoding': encoding} if encoding else {}
+    if route is None:
+        route = 'inplace' if inplace else 'out'
+    e_in, e_out = enc_in_out(enc) if fmt != 'toml' else ('utf-8', 'utf-8')
     src = 'in.' + fmt
     with open(src, 'wb') as f:
         f.write(src_text.encode(e_in))
     cfg = {'in': src}
     out = src
-    if not inplace:
+    if route == 'out':
         out = 'out/res.' + fmt
         cfg['out'] = out
-    if encoding and fmt != 'toml':
-        cfg['encoding'] = encoding
+    elif route == 'same':
+        cfg['out'] = './' + src
+    elif route == 'empty':
+        cfg['out'] = ''
+    if fmt != 'toml':
+        cfg.update(enc)
     ctx = Context(dict(ctx_values))
     ctx[key] = cfg
     try:
@@ -171,7 +190,11 @@ def run_fileformat(fmt, ctx_values, src_text, inplace, encoding):
     except Exception as e:
         return err(e), None
     with open(out, 'rb') as f:
-        return {'ok': True}, f.read().decode(e_in)
+        raw = f.read()
+    try:
+        return {'ok': True}, raw.decode(e_out)
+    except UnicodeError as e:
+        return {'ok': True, 'undecodable': f'{type(e).__name__} reading the output as {e_out}; first bytes {raw[:8]!r}'}, None
 
 
 def third_party_roundtrip(fmt, value):
@@ -205,3 +228,229 @@ def clean_dir():
             shutil.rmtree(p, ignore_errors=True)
         else:
             os.unlink(p)
+
+
+# --------------------------------------------------------------------------
+# sessions: several file operations in ONE process, and each of them again in a FRESH process
+# --------------------------------------------------------------------------
+#
+# op (JSON-able; every op carries its own input files, so it means the same thing on its own):
+#   {"kind": "roundtrip", "format", "payload": wire, "ctx": wire, "reader": "fetch"|"parser", "name": file}
+#   {"kind": "fetchraw",  "format", "text", "reader": "fetch"|"parser", "name", "encoding"?}
+#   {"kind": "formatraw", "format", "files": [[name, text], ...], "ctx": wire, "route": "inplace"|"outdir"}
+
+def run_op(op):
+    """Run one op with the real steps in the current (scratch) directory. JSON-able observation."""
+    from .common import dec
+    from pypyr.context import Context
+    kind, fmt = op['kind'], op['format']
+    if kind == 'roundtrip':
+        ctx = dec(op['ctx'])
+        path = op['name']
+        w, _ = run_write(fmt, ctx, path, dec(op['payload']), True, None)
+        if 'err' in w:
+            return {'write': w}
+        obs = {'write': 'ok'}
+        try:
+            with open(path, 'rb') as f:
+                obs['text'] = f.read().decode('utf-8')
+        except Exception as e:
+            obs['text'] = {'unreadable': type(e).__name__}
+        if op['reader'] == 'parser':
+            r = run_parser(fmt, path)
+            obs['read'] = r
+        else:
+            r = run_fetch(fmt, {}, path, 'out', False, None)
+            obs['read'] = {'ok': dict((json.dumps(k), v) for k, v in r['ok']['d']).get('"out"', {'missing': True})} \
+                if 'ok' in r else r
+        return obs
+    if kind == 'fetchraw':
+        path = op['name']
+        with open(path, 'wb') as f:
+            f.write(op['text'].encode(op.get('encoding') or 'utf-8'))
+        if op['reader'] == 'parser':
+            return {'read': run_parser(fmt, path)}
+        r = run_fetch(fmt, {}, path, 'out', False, op.get('encoding'))
+        return {'read': {'ok': dict((json.dumps(k), v) for k, v in r['ok']['d']).get('"out"', {'missing': True})}
+                if 'ok' in r else r}
+    if kind == 'formatraw':
+        modname, key = FORMAT[fmt]
+        mod = importlib.import_module(modname)
+        names = []
+        for name, text in op['files']:
+            with open(name, 'wb') as f:
+                f.write(text.encode('utf-8'))
+            names.append(name)
+        cfg = {'in': names if len(names) > 1 or op.get('aslist') else names[0]}
+        outdir = ''
+        if op.get('route') == 'outdir':
+            cfg['out'] = 'res/'
+            outdir = 'res/'
+        ctx = Context(dec(op['ctx']))
+        ctx[key] = cfg
+        try:
+            mod.run_step(ctx)
+        except Exception as e:
+            return {'format': err(e)}
+        outs = []
+        for name in names:
+            try:
+                with open(outdir + name, 'rb') as f:
+                    outs.append([name, f.read().decode('utf-8')])
+            except Exception as e:
+                outs.append([name, {'unreadable': type(e).__name__}])
+        return {'format': 'ok', 'outs': outs}
+    raise ValueError(kind)
+
+
+def _child(fn, timeout):
+    """Run fn() in a forked child in a scratch directory; JSON result over a pipe. A child that raises, dies or
+    does not finish in time is an observation, never a hang."""
+    import select
+    import shutil
+    import signal
+    import tempfile
+    import time
+    r, w = os.pipe()
+    pid = os.fork()
+    if pid == 0:
+        code = 0
+        try:
+            os.close(r)
+            d = tempfile.mkdtemp(prefix='verif-c16s-')
+            os.chdir(d)
+            try:
+                try:
+                    res = fn()
+                except RecursionError:
+                    res = {'crashed': 'RecursionError'}
+                except BaseException as e:   # noqa: BLE001 - anything out of the tree under test is an observation
+                    res = {'crashed': exc_name(e), 'msg': str(e)[:200]}
+                data = json.dumps(res).encode()
+                while data:
+                    n = os.write(w, data)
+                    data = data[n:]
+            finally:
+                os.chdir('/')
+                shutil.rmtree(d, ignore_errors=True)
+        except BaseException:
+            code = 3
+        finally:
+            os._exit(code)
+    os.close(w)
+    buf, deadline, timed_out = b'', time.time() + timeout, False
+    while True:
+        left = deadline - time.time()
+        if left <= 0:
+            timed_out = True
+            break
+        rd, _, _ = select.select([r], [], [], left)
+        if not rd:
+            timed_out = True
+            break
+        b = os.read(r, 1 << 16)
+        if not b:
+            break
+        buf += b
+    os.close(r)
+    if timed_out:
+        try:
+            os.kill(pid, signal.SIGKILL)
+        except OSError:
+            pass
+    os.waitpid(pid, 0)
+    if timed_out:
+        return {'timeout': timeout}
+    try:
+        return json.loads(buf.decode())
+    except Exception:
+        return {'crashed': 'child died without a result'}
+
+
+def run_session_isolated(ops, timeout=30):
+    """Called in a PRISTINE process (the zygote): the whole session in one forked child, and every op alone in
+    a forked child of its own."""
+    def whole():
+        out = []
+        for i, op in enumerate(ops):
+            sub = 's%d' % i
+            os.makedirs(sub, exist_ok=True)
+            cwd = os.getcwd()
+            os.chdir(sub)
+            try:
+                try:
+                    out.append(run_op(op))
+                except RecursionError:
+                    out.append({'crashed': 'RecursionError'})
+                except Exception as e:
+                    out.append({'crashed': exc_name(e), 'msg': str(e)[:200]})
+            finally:
+                os.chdir(cwd)
+        return out
+    insession = _child(whole, timeout)
+    fresh = [_child(lambda op=op: run_op(op), timeout) for op in ops]
+    return {'insession': insession, 'fresh': fresh}
+
+
+def zygote_main():
+    """`python -m harness.impl_c16`: a process that has imported the tree under test and NOTHING else happened in
+    it; serves one JSON request per line: {"ops": [...]} -> {"insession": [...], "fresh": [...]}."""
+    import sys
+    from . import common
+    common.use_repo()
+    for m in list(WRITE.values()) + list(FETCH.values()) + list(FORMAT.values()):
+        importlib.import_module(m[0])
+    for m in PARSER.values():
+        importlib.import_module(m)
+    sys.stdout.write(json.dumps({'ready': True}) + '\n')
+    sys.stdout.flush()
+    for line in sys.stdin:
+        line = line.strip()
+        if not line:
+            continue
+        try:
+            req = json.loads(line)
+            res = run_session_isolated(req['ops'], req.get('timeout', 30))
+        except Exception as e:   # noqa: BLE001
+            res = {'zygote-error': f'{type(e).__name__}: {e}'}
+        sys.stdout.write(json.dumps(res) + '\n')
+        sys.stdout.flush()
+
+
+class Zygote:
+    """Client side: one pristine helper process per harness process."""
+
+    def __init__(self):
+        import subprocess
+        import sys
+        from . import common
+        self.p = subprocess.Popen([sys.executable, '-m', 'harness.impl_c16'], cwd=str(common.VERIF),
+                                  stdin=subprocess.PIPE, stdout=subprocess.PIPE, text=True, bufsize=1)
+        first = self.p.stdout.readline()
+        if not first or 'ready' not in first:
+            raise common.Infra('C16 session helper did not start: ' + repr(first))
+
+    def session(self, ops, timeout=30):
+        import select
+        from . import common
+        self.p.stdin.write(json.dumps({'ops': ops, 'timeout': timeout}) + '\n')
+        self.p.stdin.flush()
+        rd, _, _ = select.select([self.p.stdout], [], [], timeout * (len(ops) + 2) + 30)
+        if not rd:
+            self.close()
+            raise common.Infra('C16 session helper does not answer')
+        line = self.p.stdout.readline()
+        if not line:
+            raise common.Infra('C16 session helper closed the stream')
+        return json.loads(line)
+
+    def close(self):
+        try:
+            self.p.stdin.close()
+            self.p.wait(timeout=5)
+        except Exception:
+            self.p.kill()
+
+
+if __name__ == '__main__':
+    zygote_main()
